@@ -2,6 +2,30 @@
 DEFERRED = "rules for this property are not armed yet (build order: DESIGN.md Appendix D); not claimed until a self-tested rule exists"
 
 CLAIMS = {
+    "C10": {
+        "level": "other",
+        "text": "Registry life-cycle rules over MIR (who creates/inserts/removes; lookup-or-error dominating on_execute and the long-data append with the same id on every enumerated path through one loop iteration; nothing but an error return after a failed lookup; close = on_close once + remove same id + no write; reply() inserts a fresh Default-based entry). Decides these structural necessary conditions for all interleavings because they hold on every CFG path; does not model HashMap itself.",
+        "note": "Trusted: std HashMap semantics, rustc MIR, msqlx exporter; the shim replying with the id it means.",
+        "technique": "call-graph who-may-call rules + path-precise def-use over enumerated CFG paths of the command loop",
+    },
+    "C12": {
+        "level": "other",
+        "text": "Interprocedural typestate {clean,dirty} over MIR with callee summaries: at every call of the single transport-reading function in the handshake and in the command loop (back edge included) the connection must be clean on all non-error paths; plus flush completeness (packet terminator then transport flush on every Ok path, TLS wrappers delegate), parse-before-read and single wait site. A path property over all schedules, decided on all CFG paths.",
+        "note": "Trusted: the transport's flush() flushes; shim callbacks write only through the writer they are handed.",
+        "technique": "typestate dataflow (forward may-analysis with interprocedural summaries), must-pass-through on enumerated paths",
+    },
+    "C16": {
+        "level": "other",
+        "text": "Def-use/dominance/cursor-offset rules on the parameter iterator: type table = bound_types of the statement entry handed in, mutated only there; clear+push confined to the types-present branch, clear dominates the push loop, loop over 0..params with one push per iteration, entry i = (byte 1+2i, bit 7 of byte 2+2i) after the flag; value cursor after the header = nullmap_len+1(+2n) on both branches (affine offsets from split_at/index chains); parser uses entry `col`. Found and fixed the reuse-branch defect (flag byte not consumed).",
+        "note": "Trusted: Vec/slice semantics; protocol layout of COM_STMT_EXECUTE as encoded in the rule.",
+        "technique": "affine cursor-offset analysis over origin terms, dominator rules, loop-shape check",
+    },
+    "C17": {
+        "level": "other",
+        "text": "Append-only (entry(param).or_insert_with.extend on the looked-up statement's long_data with this command's data), cleared on the same entry after on_execute on every completed path, long-data parameters bypass the inline parser with the NULL test first, storage owned by the per-statement entry only. Structural necessary conditions on every path; ordering of bytes inside Vec::extend is std's.",
+        "note": "Trusted: std Vec/HashMap semantics; reassembly of multi-packet chunks (C01).",
+        "technique": "path-precise def-use over enumerated CFG paths, ownership table from the ADT export",
+    },
     "C13": {
         "level": "other",
         "text": "Static table + dataflow check: the 886 ErrorKind discriminants are compared with the MIR switch tables of From<u16> and sqlstate() (bijection, totality, 5-byte states), the ERR writer's emission sequence is compared slot by slot with the protocol layout including the source of each slot, and the four public error entry points are followed by def-use to the ERR writer. Complete for the finite table clause; decides forwarding for all messages because the message is passed through untouched.",
